@@ -16,7 +16,7 @@ META = {
         "read/write paths that call the set/verify routines (inode.c, dirblock.c, ext_attr.c, rw_bitmaps.c, mmp.c, "
         "closefs.c, extent.c:update_path): only the routines themselves are encoded; of the read paths only "
         "ext2fs_extent_get is (extget_p: a failed extent block read in any retry iteration is reported)",
-        "inode sizes other than 128/256, descriptor sizes other than 32/64, block sizes other than the small ones "
+        "inode sizes other than 128/256, descriptor sizes other than 32/64/128, block sizes other than the small ones "
         "listed per harness (the code is parametric in them)",
         "big-endian hosts",
     ],
@@ -50,8 +50,10 @@ def csum_t_cfgs():
     for isz in (128, 256):
         c.append(dict(base(isz, ["ext2fs_inode_csum_verify.0:130"]), OBJ=O["INODE"], ISIZE=isz))
     c.append(dict(base(256, ["ext2fs_inode_csum_verify.0:130"]), OBJ=O["INODE"], ISIZE=256, CSUM=0))
-    for desc in (32, 64):
+    for desc in (32, 64, 128):
         for o in ("GD_MC", "GD_CRC16", "BBITMAP", "IBITMAP"):
+            if desc == 128 and o == "IBITMAP":
+                continue
             c.append(dict(base(2 * desc), OBJ=O[o], DESC=desc))
     c.append(dict(base(64), OBJ=O["GD_MC"], DESC=32, CSUM=0))
     c.append(dict(base(128), OBJ=O["BBITMAP"], DESC=64, CSUM=0))
@@ -104,7 +106,7 @@ HARNESSES = [
     dict(name="csum_t", src="csum_t.c", extra_src=["lib/ext2fs/blknum.c"],
          funcs=["ext2fs_inode_csum_verify", "ext2fs_inode_csum_set", "ext2fs_inode_csum"],
          configs=csum_t_cfgs(), unwind=6, backends=["default", "kissat"],
-         bound="one fully symbolic object per query: inode 128/256 bytes; group descriptor 32/64 bytes (2 groups); "
+         bound="one fully symbolic object per query: inode 128/256 bytes; group descriptor 32/64/128 bytes (2 groups); "
                "bitmap size argument 0..8; xattr/extent/htree block of 64 (thorough: 128) bytes; directory leaf "
                "block of 1024 bytes with a concrete rec_len chain shape per query (3 valid, 2 invalid), all other bytes symbolic; superblock and MMP block "
                "1024 bytes; all identity terms (inum, generation, group, block number, seed, uuid) and all "
